@@ -33,3 +33,17 @@ Print Assumptions C14_anchor_order.
 Theorem C14_pdf_dct_is_jpeg : pdf_content_type pdf_ctmap [s "/DCTDecode"] = s "image/jpeg".
 Proof. vm_compute. reflexivity. Qed.
 Print Assumptions C14_pdf_dct_is_jpeg.
+
+(* C14_ooxml_content_type / C14_xlsx_content_type instantiated on the live tables: every raster extension, also in
+   upper case (lower-casing recorded as the pair), gets its MIME type in the three extractors *)
+Definition upper_pairs : list (str * str * str) :=
+  [(s "PNG", s "png", s "image/png"); (s "JPG", s "jpg", s "image/jpeg"); (s "Jpeg", s "jpeg", s "image/jpeg");
+   (s "gif", s "gif", s "image/gif"); (s "BMP", s "bmp", s "image/bmp")].
+Theorem C14_content_type_by_extension :
+  forallb (fun e : str * str * str => let '(raw, low, ct) := e in
+     str_eqb (ooxml_content_type (fun x => if str_eqb x raw then low else x) ctmap_docx (s "media/a.b/image1." ++ raw)) ct
+     && str_eqb (ooxml_content_type (fun x => if str_eqb x raw then low else x) ctmap_pptx (s "../media/image1." ++ raw)) ct
+     && str_eqb (xlsx_content_type (fun x => if str_eqb x raw then low else x) ctmap_xlsx (s "xl/media/image1." ++ raw)) ct)
+    upper_pairs = true.
+Proof. vm_compute. reflexivity. Qed.
+Print Assumptions C14_content_type_by_extension.
